@@ -920,6 +920,10 @@ Definition cmp_asc (a b : Z) : Z := match a ?= b with Lt => -1 | Eq => 0 | Gt =>
 Definition cmp_desc (a b : Z) : Z := match a ?= b with Lt => 1 | Eq => 0 | Gt => -1 end.
 (** a comparator that returns magnitudes other than 1 *)
 Definition cmp_diff (a b : Z) : Z := a - b.
+(** reversed difference and a scaled difference: comparators whose results are never +-1 on
+    distinct even keys (the contract is negative / zero / positive, only the sign may be used) *)
+Definition cmp_rdiff (a b : Z) : Z := b - a.
+Definition cmp_diff3 (a b : Z) : Z := 3 * (a - b).
 (** a total preorder that is not antisymmetric: keys are compared by their half *)
 Definition cmp_half (a b : Z) : Z := cmp_asc (a / 2) (b / 2).
 
